@@ -64,11 +64,11 @@ CLAIMED = {
         "DESIGN.md section 5 C08",
     ),
     "C09": (
-        "Coq theorems over token callbacks regenerated from source and a hand model of AhbExpressionTransformer (selection of the first fulfilled part) + correspondence and split/selection oracle",
-        "Props/C09.v: every ASCII letter-case variant of the six indicators is normalised to its canonical indicator (over the regenerated callbacks: the obligation the original "
-        "lower-case prefix-operator defect breaks); select returns the first fulfilled part (marked conditional iff several parts) else the last; the reported indicator, outcome, hints, "
-        "format expression and format result are the part's own; a bare indicator counts as fulfilled and unconditional. evaluate_ahb_expression_tree is compared with the model end to end.",
-        "Trusted: Coq kernel, translator (Gen_enums), hand model of the transformer. Partial: the string-level split (AHB scanner regexes) is checked by the oracle against assembled parts, not yet by a theorem.",
+        "Coq theorems: print/scan round trip for the AHB scanner model, indicator normalisation over callbacks regenerated from source, selection of the first fulfilled part + correspondence (scanner vs Lark, evaluation vs ahbicht) and split/selection oracle",
+        "Props/C09.v: C09_split (any number of modal-mark parts in any ASCII case spelling, condition texts over the CONDITION_EXPRESSION alphabet, optional trailing bare mark, scan into exactly these parts in order), "
+        "C09_split_prefix_operator, C09_split_bare; C09_normalise (every case variant of the six indicators maps to its canonical indicator: the obligation the original lower-case prefix-operator defect breaks); "
+        "C09_select / C09_selected_part_is_reported / C09_bare_indicator. Lark's behaviour on the AHB grammar is tied to the scanner model by correspondence on every run.",
+        "Trusted: Coq kernel, translators (Gen_enums, Gen_ahbgrammar incl. character data computed with Python's re), hand models of the scanner and of AhbExpressionTransformer (validated by correspondence).",
         "DESIGN.md section 5 C09",
     ),
     "C13": (
